@@ -11,6 +11,7 @@ import AndaVerif.Proofs.EncTamper
 import AndaVerif.Proofs.EncRanges
 import AndaVerif.Proofs.EncWriter
 import AndaVerif.Proofs.EncLayout
+import AndaVerif.Proofs.EncMultipart
 
 namespace AndaVerif.Props.C09
 open AndaVerif.Enc AndaVerif.Gen.EncAad
@@ -365,13 +366,15 @@ example :
     (decStream toyAEAD ⟨exWritten.2, 4, 0, 0⟩ 10 [[10, 11, 12, 13, 14, 15, 16, 17, 18]]) = .fail .decrypt [10, 11, 12, 13, 14, 15, 16, 17] := by
   decide
 
-/-- NOT PROVED (kept as the full statement): a multipart upload, whatever the part boundaries, commits
-exactly what a single `put_opts` of the concatenated parts commits.  Multipart objects are tied to the
-model like all others (every chunk tag re-verified per chunk index by the harness). -/
-def multipart_eq_put_full : Prop :=
-  ∀ (A : AEAD) (c : Nat) (loc : Bytes) (parts : List Bytes) (f : Fresh), 1 ≤ c →
+/-- A multipart upload — whatever the part boundaries (empty parts, parts smaller or larger than a chunk,
+parts straddling chunks) — commits exactly the ciphertext object and the document a single `put_opts` of
+the concatenated parts commits (same fresh values): chunk indices, nonces, tags, size.  Together with
+`backend_writes_factor` this covers the bytes a multipart upload hands to the backend; the sizes of the
+individual forwarded parts are compared with the real uploader by the harness (`mput` driver op). -/
+theorem multipart_eq_put (A : AEAD) (c : Nat) (loc : Bytes) (parts : List Bytes) (f : Fresh) (hc : 1 ≤ c) :
     mpComplete A c loc f (parts.foldl (mpPutPart A c f.baseNonce) MpState.init) =
-      writeObject A c loc parts.flatten f
+      writeObject A c loc parts.flatten f :=
+  multipart_eq_put' A c loc parts f hc
 
 set_option maxRecDepth 20000 in
 example : mpComplete toyAEAD 4 [120] toyFreshEx
